@@ -120,6 +120,19 @@ def r09a(ctx, rep):
             exact_involved = x in EXACT or y in EXACT
             both_float = x == "Float" and y == "Float"
             lossy = lossy_ops(rf)
+            # an arm that delegates to a local comparison helper decides there: the helper's body (and the conversions it
+            # calls inside the number module) must be free of lossy conversions too
+            seen_h = set()
+            work = [c for c, fa, loc, bb, t in rf["calls"] if (c or "").startswith(CMP_HELPER)]
+            while work:
+                h = work.pop()
+                if h in seen_h or h not in facts.fns:
+                    continue
+                seen_h.add(h)
+                hf = facts.fns[h]
+                hrf = region_facts(hf, set(range(len(hf.blocks))))
+                lossy = lossy + lossy_ops(hrf)
+                work += [c for c, fa, loc, bb, t in hrf["calls"] if (c or "").startswith("marwood::number::Number::") and c != h]
             key = "R09a|%s|%s,%s|lossy" % (name, x, y)
             if lossy and exact_involved:
                 rep.fail("R09a", key, "%s(%s, %s) converts an exact operand through %s before deciding: the comparison is "
@@ -147,14 +160,22 @@ def r09a(ctx, rep):
         rep.floor("R09a", "representation-pair arms of %s" % name, n, 16)
 
 
+CMP_HELPER = "marwood::number::Number::cmp_"     # local comparison helpers: cmp_with_float, cmp_exact
+
+
 def arm_domains(rf):
     out = set()
     for c, fa, loc, bb, t in rf["calls"]:
+        if (c or "").startswith(CMP_HELPER):
+            out.add("helper:" + c.rsplit("::", 1)[-1])
+            continue
         if "PartialEq" in fa or "PartialOrd" in fa:
             if fa.startswith("<"):
                 d = fa[1:].split(" as ")[0].lstrip("&")
                 if d.startswith("std::rc::Rc<") and d.endswith(">"):
                     d = d[len("std::rc::Rc<"):-1]
+                if d.endswith("cmp::Ordering") or d.endswith("cmp::Ordering>"):
+                    continue      # post-processing of a helper's verdict (== Some(Equal)), not a domain of comparison
                 out.add(d)
     for op, aty, loc, bb, s in rf["bins"]:
         if op in ("Eq", "Ne", "Lt", "Le", "Gt", "Ge", "Cmp") and aty in ("i64", "i32", "f64"):
@@ -189,6 +210,9 @@ def r09b(ctx, rep):
                     name, x, y, sorted(short_path(q) for q in d), name, y, x, sorted(short_path(q) for q in d2)), [facts.fn(EQ if name == "eq" else CMP).span])
         if name == "eq" and ("partial_cmp", x, y) in dom:
             d2 = dom[("partial_cmp", x, y)]
+            # on the failed-fit edge eq answers `false` (implied by the failed fit, R09a) where partial_cmp orders the operands
+            # through the exact helper: the helper refines, it does not contradict
+            d2 = d2 - {"helper:cmp_exact"} if "helper:cmp_exact" not in d else d2
             key = "R09b|eq-vs-cmp|%s,%s" % (x, y)
             (rep.ok if d == d2 else rep.fail)(
                 "R09b", key, "eq and partial_cmp agree on the domain for (%s,%s)" % (x, y) if d == d2 else
@@ -267,6 +291,12 @@ R08_REVIEWED = {
     "R08a|rem|BigInt,Rational|Ratio<i32>::new":
         "only on the non-integer-rhs branch; remainder/modulo pop their operands with pop_integer and odd?/even? pass Fixnum 2, "
         "so no Scheme caller reaches it with a non-integer rational divisor",
+    "R08a|rem|Fixnum,Rational|Ratio<i64>::rem":
+        "only on the non-integer-divisor branch (an integer-valued rational divisor takes fixnum_rem): remainder / modulo pop "
+        "their operands with pop_integer and odd? / even? pass Fixnum 2, so no Scheme caller reaches it",
+    "R08a|rem|Rational,Rational|Ratio<i32>::rem":
+        "only when one operand is a non-integer rational (two integer-valued rationals take fixnum_rem): remainder / modulo "
+        "pop their operands with pop_integer and odd? / even? pass Fixnum 2, so no Scheme caller reaches it",
     "R08a|rem|Fixnum,Rational|narrow:i64->i32":
         "the narrowed value is the remainder, whose magnitude is below the divisor's i32 numerator/denominator",
     "R08a|rem|Rational,Fixnum|Overflow(Rem):i64":
@@ -279,8 +309,17 @@ R08_REVIEWED = {
         "the quotient builtin rejects a zero divisor in any representation through is_zero before calling",
     "R08a|quotient|Rational,Fixnum|Overflow(Div):i64":
         "needs dividend i64::MIN, but the dividend is Ratio<i32>::to_i64()",
+    "R08a|quotient|Rational,Rational|DivisionByZero:i64":
+        "the quotient builtin rejects a zero divisor in any representation through is_zero before calling",
+    "R08a|quotient|Rational,Rational|Overflow(Div):i64":
+        "needs dividend i64::MIN, but both operands are Ratio<i32>::to_i64() (|x| <= 2^31)",
+    "R08a|floor|Rational|Ratio<i64>::floor":
+        "numerator and denominator are i32 values widened to i64 (new_raw of `as i64` casts); floor's numer - denom + 1 stays below 2^33",
+    "R08a|ceil|Rational|Ratio<i64>::ceil":
+        "numerator and denominator are i32 values widened to i64 (new_raw of `as i64` casts); ceil's numer + denom - 1 stays below 2^33",
 }
-RATIO_TOTAL = ("trunc", "round",   # trunc = numer/denom with denom > 0; round adds +-1 to a value with |trunc| <= i32::MAX/2
+RATIO_TOTAL = ("new_raw",           # plain constructor: stores numerator and denominator, no reduction, no arithmetic
+               "trunc", "round",   # trunc = numer/denom with denom > 0; round adds +-1 to a value with |trunc| <= i32::MAX/2
                "checked_add", "checked_sub", "checked_mul", "checked_div", "numer", "denom", "is_integer", "to_integer",
                "from_integer", "to_f64", "to_i64", "to_i32", "to_u64", "to_u32", "to_usize", "clone", "eq", "partial_cmp",
                "cmp", "ne", "lt", "le", "gt", "ge", "from", "into", "from_f64", "hash", "fmt", "is_zero")
@@ -431,8 +470,50 @@ def r08a(ctx, rep):
             if not seen:
                 rep.ok("R08a", "R08a|%s|%s" % (name, x), "%s(%s): every fixed-width step is checked or widened" % (name, x), [fn.span])
             for k, lst in sorted(seen.items()):
-                rep.fail("R08a", "R08a|%s|%s|%s" % (name, x, k), "%s(%s): %s" % (name, x, lst[0][0]), [l for _, l in lst])
+                key = "R08a|%s|%s|%s" % (name, x, k)
+                if key in R08_REVIEWED:
+                    rep.ok("R08a", key, "%s(%s): %s — reviewed: %s" % (name, x, lst[0][0], R08_REVIEWED[key]), [l for _, l in lst])
+                else:
+                    rep.fail("R08a", key, "%s(%s): %s" % (name, x, lst[0][0]), [l for _, l in lst])
     rep.floor("R08a", "representation arms of the unary operations", nu, 20)
+    # premise of the two reviewed `Ratio % Ratio` entries: integer-valued rational operands never get there
+    from ..shapes import dominating_guards
+    fn = facts.fns.get(BINOPS["rem"])
+    if fn is not None:
+        k = 0
+        for bb, t in fn.calls():
+            fa = t.get("fnargs") or callee(t) or ""
+            if _ratio_call(callee(t) or "", fa) != "rem":
+                continue
+            k += 1
+            # reachable only through the false edge of some is_integer test? (`a.is_integer() && b.is_integer()` lowers to
+            # nested switches whose false edges join, so this is an edge-cut reachability question, not a dominance one)
+            cut = set()
+            for b2, blk in enumerate(fn.blocks):
+                tt = blk["term"]
+                if tt["k"] == "switch" and not blk.get("cleanup"):
+                    o = fn.origin(tt["op"])
+                    if o[0] == "call" and (callee(o[1]) or "").endswith("::is_integer"):
+                        vals = dict((v, tg) for v, tg in tt["targets"])
+                        false_t = vals.get(0, tt["otherwise"] if 0 not in vals else None)
+                        if false_t is not None:
+                            cut.add((b2, false_t))
+            seen = {0}
+            st_ = [0]
+            while st_:
+                b0 = st_.pop()
+                for y in fn.succ[b0]:
+                    if (b0, y) in cut or y in seen:
+                        continue
+                    seen.add(y)
+                    st_.append(y)
+            guarded = bb not in seen
+            tyw = "Ratio<i64>" if "i64" in fa else "Ratio<i32>"
+            (rep.ok if guarded else rep.fail)(
+                "R08a", "R08a|rem|premise|%s::rem#%d" % (tyw, k),
+                "the %s remainder is reached only after an is_integer test failed (integer-valued operands take fixnum_rem)" % tyw if guarded else
+                "the %s remainder can be reached with integer-valued rational operands (no failed is_integer test dominates it): "
+                "MIN %% -1/1 overflows inside Ratio's %%" % tyw, [t["loc"]])
 
 
 def r08c(ctx, rep):
